@@ -270,7 +270,23 @@ impl IntoIterator for BackoffStrategy {
 pub struct BackoffStrategyIter {
     strategy_type: Strategy,
     state: BackoffStrategyState,
-    current_attempt: u32,
+    // Wider than `max_attempts` so that counting past `u32::MAX` attempts cannot overflow
+    current_attempt: u64,
+}
+
+/// Multiplies a [Duration] by an integer, saturating at [Duration::MAX] instead of panicking.
+fn saturating_mul(duration: Duration, multiplier: u128) -> Duration {
+    const NANOS_PER_SEC: u128 = 1_000_000_000;
+
+    let nanos = match duration.as_nanos().checked_mul(multiplier) {
+        Some(nanos) => nanos,
+        None => return Duration::MAX,
+    };
+
+    match u64::try_from(nanos / NANOS_PER_SEC) {
+        Ok(secs) => Duration::new(secs, (nanos % NANOS_PER_SEC) as u32),
+        Err(_) => Duration::MAX,
+    }
 }
 
 impl Iterator for BackoffStrategyIter {
@@ -282,14 +298,21 @@ impl Iterator for BackoffStrategyIter {
         let max_attempts = self.state.max_attempts;
         let current_attempt = self.current_attempt;
 
-        if current_attempt > max_attempts {
+        if current_attempt > max_attempts as u64 {
             return None;
         }
 
         let mut next_duration = match self.strategy_type {
-            Strategy::Linear => step * current_attempt,
+            Strategy::Linear => saturating_mul(step, current_attempt as u128),
             Strategy::Constant => step,
-            Strategy::Exponential(factor) => step.mul_f64(factor.pow(current_attempt - 1) as f64),
+            Strategy::Exponential(factor) => {
+                match (factor as u128).checked_pow((current_attempt - 1) as u32) {
+                    Some(multiplier) => saturating_mul(step, multiplier),
+                    // The multiplier itself is out of range: only a zero step keeps the delay finite
+                    None if step.is_zero() => step,
+                    None => Duration::MAX,
+                }
+            }
         };
 
         self.current_attempt += 1;
@@ -300,7 +323,7 @@ impl Iterator for BackoffStrategyIter {
 
         let next = NextAttempt {
             duration: next_duration,
-            attempt_num: current_attempt,
+            attempt_num: current_attempt as u32,
             max_attempts,
         };
 
